@@ -36,7 +36,7 @@ open StorageModel.Tx StorageModel.Tx.Spec StorageModel.Properties.C07
 
 theorem table_is_expected : Generated.crudReturns = expectedReturns := C07.table_is_expected
 theorem delivery_is_expected :
-    Generated.deliveryFlags.all (·.2) = true ∧ Generated.deliveryFlags.length = 15 ∧
+    Generated.deliveryFlags.all (·.2) = true ∧ Generated.deliveryFlags.length = 16 ∧
     Generated.adapterShapes = ["entityListenerAdapter", "entityFunctionListenerAdapter", "untypedEventListenerWrapper"].map expectedAdapter :=
   C07.delivery_is_expected
 
@@ -369,7 +369,7 @@ theorem commit_actions_once (env : Env) (h : FromCode env) (db : Db) (prevCtx : 
 /-- the former counter-example: one tx-complete listener, a Batch transaction that registers a commit
     action and deletes an entity — it commits, the commit action runs once, and so does the listener -/
 def batchWitnessEnv : Env := { regsP := [], regsC := [], txListeners := 1, t := Generated.crudReturns }
-def batchWitnessDb : Db := [("p1", { f := ⟨"n1", [], none, []⟩, child := none })]
+def batchWitnessDb : Db := [("p1", { f := ⟨"n1", [], none, [], []⟩, child := none })]
 def batchWitnessTx : TxSpec := { mode := .batch, reuseCtx := false, body := [.addCommit 1, .op (.delete .P "p1") .none false] }
 
 theorem batch_runs_tx_complete :
@@ -382,7 +382,7 @@ theorem batch_runs_tx_complete :
 -- a listener registered for [deleted, deletedAsync] on the parent store
 example :
     (runTx { regsP := [.listener .untyped [⟨.deleted, false⟩, ⟨.deleted, true⟩]], regsC := [], txListeners := 1, t := Generated.crudReturns }
-      [("c1", { f := ⟨"n", [], none, []⟩, child := some "k" })] Ctx.empty
+      [("c1", { f := ⟨"n", [], none, [], []⟩, child := some "k" })] Ctx.empty
       { mode := .update, reuseCtx := false, body := [.op (.delete .C "c1") .none false] }).res = .ok := by
   decide
 
@@ -391,13 +391,13 @@ example :
 -- called once, with the parent view of the entity as it is after the create
 example :
     (runTx { regsP := [.listener .untyped [⟨.created, false⟩]], regsC := [], txListeners := 0, t := Generated.crudReturns }
-      [("p4", { f := ⟨"n0", ["t"], none, []⟩, child := none })] Ctx.empty
-      { mode := .update, reuseCtx := false, body := [.op (.create .C "p4" ⟨"n0", ["t"], none, []⟩ "k5") .none false] }).res = .ok ∧
+      [("p4", { f := ⟨"n0", ["t"], none, [], []⟩, child := none })] Ctx.empty
+      { mode := .update, reuseCtx := false, body := [.op (.create .C "p4" ⟨"n0", ["t"], none, [], []⟩ "k5") .none false] }).res = .ok ∧
     deliveriesTo .P 0 0
       (runTx { regsP := [.listener .untyped [⟨.created, false⟩]], regsC := [], txListeners := 0, t := Generated.crudReturns }
-        [("p4", { f := ⟨"n0", ["t"], none, []⟩, child := none })] Ctx.empty
-        { mode := .update, reuseCtx := false, body := [.op (.create .C "p4" ⟨"n0", ["t"], none, []⟩ "k5") .none false] }).fired
-      = [(false, .created, some (.parent "p4" ⟨"n0", ["t"], none, []⟩))] := by
+        [("p4", { f := ⟨"n0", ["t"], none, [], []⟩, child := none })] Ctx.empty
+        { mode := .update, reuseCtx := false, body := [.op (.create .C "p4" ⟨"n0", ["t"], none, [], []⟩ "k5") .none false] }).fired
+      = [(false, .created, some (.parent "p4" ⟨"n0", ["t"], none, [], []⟩))] := by
   decide +kernel
 
 -- witness: an entity with data in BOTH child stores is deleted through the first one — the delete listener
@@ -405,9 +405,9 @@ example :
 example :
     deliveriesTo .D 0 0
       (runTx { regsP := [], regsC := [], regsD := [.listener .func [⟨.deleted, false⟩]], txListeners := 0, t := Generated.crudReturns }
-        [("c1", { f := ⟨"n", [], none, []⟩, child := some "k", child2 := some "g" })] Ctx.empty
+        [("c1", { f := ⟨"n", [], none, [], []⟩, child := some "k", child2 := some "g" })] Ctx.empty
         { mode := .update, reuseCtx := false, body := [.op (.delete .C "c1") .none false] }).fired
-      = [(false, .deleted, some (.child2 "c1" ⟨"n", [], none, []⟩ "g"))] := by
+      = [(false, .deleted, some (.child2 "c1" ⟨"n", [], none, [], []⟩ "g"))] := by
   decide +kernel
 
 end StorageModel.Properties.C08
